@@ -156,6 +156,7 @@ func (s *IndexedState) Load(ctx *Context) error {
 		Log(ERROR, ctx, "IndexedState.Load", "location", s.Name, "error", err, "when", "Store.Load")
 		return err
 	}
+	expired := make([]string, 0, 0)
 	for _, pair := range pairs {
 		id := string(pair.K)
 		bs := pair.V
@@ -174,10 +175,20 @@ func (s *IndexedState) Load(ctx *Context) error {
 					Log(ERROR, ctx, "IndexedState.Load", "location", s.Name, "error", err, "when", "rem", "id", id)
 					return err
 				}
+				expired = append(expired, id)
 			} else {
 				Log(ERROR, ctx, "IndexedState.Load", "location", s.Name, "error", err, "when", "Store.Add", "pair", pair)
 				return err
 			}
+		}
+	}
+
+	// What was to be deleted with an expired fact goes, too (as it
+	// does when a fact expires in a live location).
+	for _, id := range expired {
+		if err := s.deleteDependencies(ctx, id); err != nil {
+			Log(ERROR, ctx, "IndexedState.Load", "location", s.Name, "error", err, "when", "deleteDependencies", "id", id)
+			return err
 		}
 	}
 
